@@ -28,6 +28,7 @@ def check(ctx):
     must_follow(ctx, P, views, iters)
     unconditional(ctx, P, views, iters)
     free_server_search(ctx, P, views, iters)
+    restart_attaches(ctx, P, views, iters)
     ctx.assume("built-in disciplines only (custom service disciplines are excluded by the property)")
 
 
@@ -209,6 +210,30 @@ def unconditional(ctx, P, views, iters):
                                     done.add((cls.name, m, "arrival-not-now"))
                                     ctx.violation(ob2, "R7.start-now", "%s.%s" % (cls.name, m), "arrival_date", "arrival-not-now", "arrival_date must be `now` before an immediate start (zero wait)", e.where, witness(st))
     ctx.floor("service start sites in dispatch routines", starts, 4)
+
+
+def restart_attaches(ctx, P, views, iters):
+    """the dispatch routines hand a free server to begin_interrupted_individuals_service when interrupted customers wait: it must put that server to work
+    on every path (a silent return leaves the server idle with customers waiting)"""
+    ob = ctx.ob("RESTART", "begin_interrupted_individuals_service(srvr) attaches srvr to a customer on every path")
+    for view in views:
+        if "PSNode" in view.mro:
+            continue
+        cls, fn = view.method("begin_interrupted_individuals_service")
+        srv = fn.args.args[1].arg
+        w = Walker(P, view, keep=lambda e: e.kind == "call" and e.d["meth"] == "attach_server", inline=rules.new_helper, loop_iters=iters)
+        bad, n = None, 0
+        for st in w.paths_of(cls, fn):
+            if st.status == "raise":
+                continue
+            n += 1
+            if not any((e.d["args"] + ["?"])[0] == srv for e in st.events):
+                bad = bad or st
+        ob.ok("%s.begin_interrupted_individuals_service" % view.name, "%d path(s)" % n)
+        if bad is not None or n == 0:
+            ctx.violation(ob, "R4.must-follow", "%s.begin_interrupted_individuals_service" % cls.name, "attach_server(%s, ...)" % srv, "free-server-not-used",
+                          "a path of the restart routine ends without attaching the free server it was given: the server idles although the caller found customers waiting", loc(fn),
+                          witness(bad) if bad is not None else None)
 
 
 def free_server_search(ctx, P, views, iters):
